@@ -39,7 +39,7 @@ def main(argv=None):
         raise
     except BaseException:
         traceback.print_exc()
-        rdir = os.path.join(os.path.dirname(os.path.dirname(os.path.abspath(__file__))), "replays", prop)
+        rdir = os.path.join(os.environ.get("VERIF_OUT") or os.path.dirname(os.path.dirname(os.path.abspath(__file__))), "replays", prop)
         os.makedirs(rdir, exist_ok=True)
         path = os.path.join(rdir, "crash.json")
         with open(path, "w") as f:
